@@ -137,8 +137,11 @@ class Exec:
         self.lock_held = None
 
 
-def _kill_self(*_args):
-    os.kill(os.getpid(), signal.SIGKILL)
+SIGNALS = {"KILL": signal.SIGKILL, "TERM": signal.SIGTERM, "INT": signal.SIGINT, "HUP": signal.SIGHUP}
+
+
+def _kill_self(sig=signal.SIGKILL):
+    os.kill(os.getpid(), sig)
 
 
 def _make_plan(knobs, fault, record=False):
@@ -149,9 +152,12 @@ def _make_plan(knobs, fault, record=False):
             if fault.get("kind", "raise") == "kill":
                 at = fault["at"]
 
-                def on_call(_kind, _sql, index, at=at):
+                sig = SIGNALS[fault.get("signal", "KILL")]
+
+                def on_call(_kind, _sql, index, at=at, sig=sig):
                     if index == at:
-                        _kill_self()
+                        plan.fired = ("A", index, "signal")      # matters only if the signal is survived
+                        _kill_self(sig)
                 plan.on_call = on_call
             else:
                 plan.a_at = fault["at"]
@@ -195,7 +201,11 @@ def execute(db, argv, knobs, fault, directory, record=False, count_sys=False):
                     os.close(r)
                     plan = sqlseam.set_plan(_make_plan(knobs, fault))
                     if layer == "C":
-                        sysfault.arm(directory, fault["at"], fault["kind"])
+                        sysfault.arm(directory, fault["at"], fault["kind"], SIGNALS[fault.get("signal", "KILL")])
+                    # the harness (like any shell) starts the command with default signal dispositions
+                    for _s in (signal.SIGTERM, signal.SIGHUP):
+                        signal.signal(_s, signal.SIG_DFL)
+                    signal.signal(signal.SIGINT, signal.default_int_handler)
                     out = cli.run(argv)
                     if layer == "C":
                         sysfault.disarm()
@@ -471,7 +481,8 @@ class Trial:
             at = rng.choice(bias) if bias and rng.random() < 0.5 else rng.randrange(n)
             kind = rng.choice(LAYER_KINDS["A"])
             if kind == "kill":
-                return {"layer": "A", "kind": "kill", "at": at, "of": n}
+                return {"layer": "A", "kind": "kill", "at": at, "of": n,
+                        "signal": rng.choice(["KILL", "KILL", "KILL", "TERM", "INT", "HUP"])}
             return {"layer": "A", "kind": "raise", "exc": kind.split(":")[1], "at": at, "of": n}
         if layer == "B":
             n = twin_ex.callbacks
@@ -484,7 +495,10 @@ class Trial:
                 return None
             # bias toward the tail: the commit sequence (journal sync, page writes, sync, unlink)
             at = rng.randrange(max(0, n - 12), n) if rng.random() < 0.6 else rng.randrange(n)
-            return {"layer": "C", "kind": rng.choice(LAYER_KINDS["C"]), "at": at, "of": n}
+            plan = {"layer": "C", "kind": rng.choice(LAYER_KINDS["C"]), "at": at, "of": n}
+            if plan["kind"].startswith("kill"):
+                plan["signal"] = rng.choice(["KILL", "KILL", "KILL", "TERM", "INT", "HUP"])
+            return plan
         return {"layer": "L", "lock": rng.choice(LAYER_KINDS["L"])}
 
     # -- one op ---------------------------------------------------------------
@@ -654,8 +668,8 @@ class Trial:
         else:
             layer = fault["layer"]
             kind = fault.get("kind") or fault.get("lock") or "interrupt"
-            if layer == "A" and kind == "raise":
-                kind = "raise"
+            if str(kind).startswith("kill") and fault.get("signal", "KILL") != "KILL":
+                kind = "%s_SIG%s" % (kind, fault["signal"])
             st["fault_configured_%s_%s" % (layer, kind)] += 1
             if ex.fired or ex.killed:
                 st["fault_fired_%s_%s" % (layer, kind)] += 1
@@ -901,7 +915,9 @@ def sweep(seed, directory, step, prefix_steps, spec=None, knobs=None, layers=("A
     if "A" in layers:
         for k in range(twin_ex.calls):
             plans.append({"layer": "A", "kind": "raise", "exc": "OperationalError", "at": k, "of": twin_ex.calls})
-            plans.append({"layer": "A", "kind": "kill", "at": k, "of": twin_ex.calls})
+            plans.append({"layer": "A", "kind": "kill", "at": k, "of": twin_ex.calls, "signal": "KILL"})
+            plans.append({"layer": "A", "kind": "kill", "at": k, "of": twin_ex.calls,
+                          "signal": ("TERM", "INT", "HUP")[k % 3]})
     if "C" in layers and sysfault.available():
         for k in range(twin_ex.syscalls):
             for kind in ("eio", "enospc", "kill_before", "kill_after", "short", "kill_mid"):
